@@ -4,7 +4,9 @@ from formats import manifest_common as mc
 
 KIND = "extra_files"
 FILES = ["GPL", "EULA", "README.md", "RPM-GPG-KEY-redhat-release", "media.repo"]
-DIRS = ["", "Server/x86_64/os/", "Server/x86_64/os2/", "a/b/", "a/bc/", "a/b/c/", "docs/"]
+DIRS = ["", "Server/x86_64/os/", "Server/x86_64/os2/", "a/b/", "a/bc/", "a/b/c/", "docs/",
+        # the base re-occurs inside / at the end of the path; repeated components
+        "Server/x86_64/os/docs/Server/x86_64/os/", "os/repos/os/", "a/a/a/", "a/b/a/b/", "a/a/b/a/a/", "x/os/x/os/"]
 CK_TYPES = ["md5", "sha1", "sha256", "SHA256", "Sha512"]
 BAD_CHECKSUMS = [None, "sha256:abc", [["sha256", "abc"]], 5]
 SIZES = [0, 1, 18092, 2 ** 32 + 5, 2 ** 60 + 1]
